@@ -130,6 +130,17 @@ def run(tier, seed, replay=None):
     expectations = [{"src": src, "field": "result", "want": want, "why": why} for src, want, why in detached]
     expectations += [{"src": p["src"], "field": "trace", "want": p["want"],
                      "why": "the observations of a container history equal those of the same operations on Go values"} for p in data["untyped"]]
+    # a string is its bytes: indexing reads exactly the addressed byte also when it is not ASCII
+    for src, want, why in (
+            ("s = \"a\u00e9\"; s[1]", "s:c3", "s[i] of a string reads the byte at i (first byte of a two-byte character)"),
+            ("s = \"a\u00e9\"; s[2]", "s:a9", "s[i] of a string reads the byte at i (second byte of a two-byte character)"),
+            ("s = \"a\u00e9\"; [len(s), s[0], len(s[1])]", "[i:3,s:61,i:1]", "the element of a string at an index is one byte long"),
+            ("s = \"a\u00e9\"; s[1] == s[1:2]", "b:true", "s[i] and s[i:i+1] of a string are the same element"),
+            ("s = \"a\u00e9\"; s[1] + s[2] == \"\u00e9\"", "b:true", "the elements of a string put together again give the string"),
+            ("s = \"a\u00e9z\"; r = \"\"; for i = 0; i < len(s); i++ { r += s[i] }; [r == s, len(r)]", "[b:true,i:4]", "a string rebuilt from its elements is the string"),
+            ("l = [\"\u00e9\"]; l[0][0]", "s:c3", "the same for a string held in a list"),
+            ("s = \"\u20ac\"; [s[0], s[1], s[2]]", "[s:e2,s:82,s:ac]", "the three bytes of a three-byte character")):
+        expectations.append({"src": src, "field": "result", "want": want, "why": why})
 
     def model_obs(x):
         """an observation of the typed-container model in the harness's trace syntax"""
